@@ -250,7 +250,8 @@ Definition add_single (s : store) (t : txn) (c : cmd) (parent : N) : store * txn
       match add_command p c f with
       | Some p' => (s1, set_persp t1 p' (cid c) (tpparents t1) (cid c :: tadded t1),
                     SBegin :: consumes effs ++ [SCommit], None)
-      | None => (s1, t1, SBegin :: consumes effs, Some (EStorage SPerspectiveHeadMismatch))
+      | None =>                           (* add_command refused: revert(checkpoint); sink.rollback *)
+        (s1, t1, SBegin :: consumes effs ++ [SRollback], Some (EStorage SPerspectiveHeadMismatch))
       end
     end
   end.
